@@ -9,12 +9,12 @@ import EG.Generated.ExchangeTable
   as read-only views, the inputs of the two adjacency builders, the result of `unlink`), with
   caching off, on, and on for one vertex class only, the caller's collection is edited in every way
   its type allows and the row records whether anything observable changed.  The theorem says no
-  row does (112 rows; kernel evaluation).
+  row does (114 rows; kernel evaluation).
 -/
 namespace EG
 namespace A
 
-theorem C12_exchange_table_complete : implExchange.length = 112 := by decide +kernel
+theorem C12_exchange_table_complete : implExchange.length = 114 := by decide +kernel
 
 /-- the real code shares no collection with the caller at any exchange point, in any state of
     the table: it is the alias-free model -/
